@@ -42,6 +42,9 @@ fn deque_keep_first(q: &mut VecDeque<Vec<u8>>)
     q.drain(1..);
 }
 
+pub assume_specification<T, U, F: FnOnce(T) -> U>[ Option::<T>::map_or ](o: Option<T>, d: U, f: F) -> (r: U)
+    requires o matches Some(t) ==> f.requires((t,)),
+    ensures match o { Some(t) => f.ensures((t,), r), None => r == d };
 pub assume_specification<T, A: std::alloc::Allocator>[ VecDeque::<T, A>::back_mut ](q: &mut VecDeque<T, A>) -> (r: Option<&mut T>)
     ensures
         old(q)@.len() == 0 ==> r is None && final(q)@ == old(q)@,
@@ -218,6 +221,7 @@ impl IOQueue {
     //@+     final(self).chunks_view() =~= old(self).chunks_view().subrange(0, final(self).chunks_view().len() as int),
     //@+     final(self).length_field() == final(self).bytes().len(),
     //@proof start proof { let s = old(self).chunks@; if s.len() > 0 { lemma_flat_one(s.subrange(0, 1)); if s.len() == 1 { assert(s.subrange(0, 1) =~= s); } } else { lemma_flat_nil(s); } }
+    //@subst? N11 closure `|chunk| chunk.len()` annotated with its own body as ensures clause /\|chunk\| chunk\.len\(\)(?=\))/|chunk: &Vec<u8>| -> (n: usize) ensures n == chunk.len() { chunk.len() }/
     //@subst? N8 `VecDeque::drain(1..)` statement (iterator dropped at once) replaced by a call specified as "keep the first element" /self\.chunks\.drain\(1\.\.\);/deque_keep_first(&mut self.chunks);/
 
     //@ fn impl IOQueue :: chunks_count ret=r
